@@ -284,6 +284,7 @@ def _budget(sub: SubCheck, tier: str) -> int:
 
 def run_check(pid: str, tier: str, seed: int, only: str | None = None) -> int:
     t0 = time.time()
+    os.environ["VERIF_TIER"] = tier
     prop = load_prop(pid)
     known = load_known(pid)
     known_kinds = {f["kind"] for f in known}
@@ -300,7 +301,7 @@ def run_check(pid: str, tier: str, seed: int, only: str | None = None) -> int:
     # shrunk mutant reproductions); they bypass Hypothesis entirely
     for rp in sorted((VERIF / "replays" / pid).glob("regress-*.json")):
         kind = replay_file(prop, rp, quiet=True)
-        if kind is not None and kind not in known_kinds:
+        if kind is not None:  # a fixed finding came back (known kinds suppress nothing here)
             print(f"violation kind={kind} (regression replay)")
             print(f"VIOLATION property={pid} replay={rp}")
             return 1
